@@ -15,9 +15,11 @@ macro_rules! scen {
 }
 
 pub mod c01;
+pub mod c06;
 
 pub fn all() -> Vec<Scenario> {
     let mut v = vec![];
     c01::register(&mut v);
+    c06::register(&mut v);
     v
 }
